@@ -210,17 +210,17 @@ example : fieldsWF [({ alias := "a", name := "x" }, Shape.leaf false),
 
 /-- a failing nullable root leaf: one error at its path, the field is null, the root object survives -/
 example :
-    Spec.execRoot ⟨fun _ => .err "boom", fun _ _ => .pass⟩ "Query"
+    Spec.execRoot { res := fun _ => .err "boom", dir := fun _ _ => .pass } "Query"
       [({ alias := "y", name := "y" }, Shape.leaf false)] =
     (.obj [("y", .null)],
       { errs := [⟨[.key "y"], "boom"⟩], invs := [(pathStr [.key "y"], "resolver")] }) := by
   simp [Spec.execRoot, Spec.completeFields, Spec.completeField, Impl.runDirs, Spec.failed, Shape.nn,
-    St.append, Spec.eff]
+    St.append, Spec.eff, Oracle.outcome]
 
 /-- the same failure at a non-null root field nulls the whole data -/
 example :
-    (Spec.execRoot ⟨fun _ => .err "boom", fun _ _ => .pass⟩ "Query"
+    (Spec.execRoot { res := fun _ => .err "boom", dir := fun _ _ => .pass } "Query"
       [({ alias := "y", name := "y" }, Shape.leaf true)]).1 = .null := by
-  simp [Spec.execRoot, Spec.completeFields, Spec.completeField, Impl.runDirs, Spec.failed, Shape.nn]
+  simp [Spec.execRoot, Spec.completeFields, Spec.completeField, Impl.runDirs, Spec.failed, Shape.nn, Oracle.outcome]
 
 end GqlgenVerif.C01
